@@ -188,6 +188,9 @@ pub trait Property: Sync {
     fn applicable(&self, _ty: &Ty) -> bool {
         true
     }
+    fn applicable_shape(&self, sh: &dyn DynShape) -> bool {
+        self.applicable(sh.ty())
+    }
     /// Deterministic / exhaustive part; `shard` of `nshards` should take its share.
     fn prelude(&self, _reg: &Registry, _shard: u32, _nshards: u32, _tier: Tier, _st: &mut Stats) -> CaseResult {
         Ok(())
@@ -327,7 +330,7 @@ fn run_dir() -> PathBuf {
 }
 
 fn applicable_shapes(prop: &dyn Property, reg: &Registry) -> Vec<usize> {
-    (0..reg.shapes.len()).filter(|i| prop.applicable(reg.shapes[*i].ty())).collect()
+    (0..reg.shapes.len()).filter(|i| prop.applicable_shape(reg.shapes[*i].as_ref())).collect()
 }
 
 fn corpus_json() -> J {
